@@ -256,7 +256,7 @@ func vfC05Gen(rt *rapid.T) vfC05Case {
 			return vfYOp{Op: "search", Q: genQuery(rt)}
 		}
 	})
-	c.Ops = rapid.SliceOfN(opGen, 1, 45).Draw(rt, "ops")
+	c.Ops = vfListOf(rt, "ops", opGen, 1, 45)
 	c.Ops = append(c.Ops, vfYOp{Op: "search", Q: genQuery(rt)})
 	return c
 }
@@ -653,6 +653,7 @@ func vfNewVectorIndexOfKind(kindName string, dim int, metric DistanceKind, train
 }
 
 func vfC05Run(c vfC05Case, ctx *vfCtx) *vfViolation {
+	ctx.HistoryLen("history", len(c.Ops))
 	kind := DistanceKind(c.Metric)
 	var vi VectorIndex
 	var ti TextIndex
